@@ -38,11 +38,33 @@ type xferOp struct {
 }
 
 type xferRT struct {
-	h    http.Handler
-	mode string
-	who  string
-	frac float64
-	log  *[]string
+	h       http.Handler
+	mode    string
+	who     string
+	frac    float64
+	log     *[]string
+	expFail bool // "cut": the EXPORTER's connection breaks (its Write fails) instead of the body being truncated on the way
+}
+
+// breakingWriter lets the first `limit` bytes through and fails every later Write, like a connection that went away.
+type breakingWriter struct {
+	*httptest.ResponseRecorder
+	limit int
+}
+
+func (b *breakingWriter) Write(p []byte) (int, error) {
+	room := b.limit - b.ResponseRecorder.Body.Len()
+	if room <= 0 {
+		return 0, errors.New("write: broken pipe")
+	}
+
+	if len(p) > room {
+		_, _ = b.ResponseRecorder.Write(p[:room])
+
+		return room, errors.New("write: broken pipe")
+	}
+
+	return b.ResponseRecorder.Write(p)
 }
 
 func (r *xferRT) RoundTrip(req *http.Request) (*http.Response, error) {
@@ -71,6 +93,15 @@ func (r *xferRT) RoundTrip(req *http.Request) (*http.Response, error) {
 	r.h.ServeHTTP(rec, req)
 	resp := rec.Result()
 	*r.log = append(*r.log, fmt.Sprintf("%s:%d", name, resp.StatusCode))
+
+	if r.mode == "cut" && name == r.who && resp.StatusCode == http.StatusOK && r.expFail {
+		// same request again, this time the exporter itself sees its writes fail after `cut` bytes
+		cut := int(float64(rec.Body.Len()) * r.frac)
+		bw := &breakingWriter{ResponseRecorder: httptest.NewRecorder(), limit: cut}
+		r.h.ServeHTTP(bw, req.Clone(req.Context()))
+
+		return bw.ResponseRecorder.Result(), nil
+	}
 
 	if r.mode == "cut" && name == r.who && resp.StatusCode == http.StatusOK {
 		body, _ := io.ReadAll(resp.Body)
@@ -308,7 +339,8 @@ func TestTransferReplay(t *testing.T) {
 
 				nImports++
 
-				impT.Transport = &xferRT{h: expT.Export(), mode: op.Mode, who: rn(op.Who), frac: rng.Float64(), log: &rtlog}
+				impT.Transport = &xferRT{h: expT.Export(), mode: op.Mode, who: rn(op.Who), frac: rng.Float64(), log: &rtlog,
+					expFail: bi%2 == 1}
 				if err := impT.Import(context.Background(), "http://exporter.test/dump"); err != nil {
 					op.Mode = "error:" + err.Error()
 				}
